@@ -437,6 +437,189 @@ static void do_compact(void) {
   wr32(from);
 }
 
+// ------------------------------------------------------------ image decoders
+//
+// 'I': kind:u32 fill:u32 seed:u32 flags:u32 -> status, sizeof:u32
+//      (re)creates an image decoder object in its own exact-size allocation.
+// 'J': method:u8 (0 decode_image_config, 1 decode_frame_config, 2 decode_frame,
+//      3 restart_frame(index:u64, io_position:u64 follow the common fields))
+//      src_len:u32 bytes src_ri:u32 closed:u8 pos:u64 pixfill:u8
+//   -> status, src_ri:u32, src_ok:u8, mallocs:u32, frees:u32, then
+//      method 0: width:u32 height:u32 pixfmt:u32 first_frame_io_position:u64 work_min:u64 work_max:u64
+//      method 1: rect(4 x u32) duration:u64 index:u64 io_position:u64 disposal:u8
+//      method 2: too_big:u8 dirty rect(4 x u32) pixel_hash:u64 npix:u32 pixels (only when they fit 64 KiB)
+//      then always: num_decoded_frame_configs:u64 num_decoded_frames:u64
+// The pixel buffer is BGRA_NONPREMUL, allocated when the first decode_frame is
+// asked for (pre-filled as asked), and kept for the following frames.
+typedef wuffs_base__image_decoder* (*up_img_fn)(void*);
+#define DEF_IMG(pkg)                                                                                     \
+  static wuffs_base__status initimg_##pkg(void* p, size_t n, uint64_t v, uint32_t o) {                   \
+    return wuffs_##pkg##__decoder__initialize((wuffs_##pkg##__decoder*)p, n, v, o);                      \
+  }                                                                                                      \
+  static wuffs_base__image_decoder* upimg_##pkg(void* p) {                                               \
+    return wuffs_##pkg##__decoder__upcast_as__wuffs_base__image_decoder((wuffs_##pkg##__decoder*)p);     \
+  }
+DEF_IMG(bmp)
+DEF_IMG(gif)
+DEF_IMG(jpeg)
+DEF_IMG(netpbm)
+DEF_IMG(nie)
+DEF_IMG(png)
+DEF_IMG(qoi)
+DEF_IMG(targa)
+DEF_IMG(wbmp)
+DEF_IMG(webp)
+DEF_IMG(etc2)
+DEF_IMG(thumbhash)
+typedef struct {
+  const char* name;
+  sizeof_fn size;
+  init_fn init;
+  up_img_fn up;
+} img_desc;
+#define IMG(pkg) {#pkg, sizeof__wuffs_##pkg##__decoder, initimg_##pkg, upimg_##pkg}
+static const img_desc imgs[] = {
+    IMG(bmp), IMG(gif), IMG(jpeg), IMG(netpbm), IMG(nie), IMG(png), IMG(qoi), IMG(targa), IMG(wbmp), IMG(webp), IMG(etc2), IMG(thumbhash),
+};
+#define NUM_IMGS (sizeof(imgs) / sizeof(imgs[0]))
+
+static uint8_t* img_obj = NULL;
+static wuffs_base__image_decoder* img = NULL;
+static wuffs_base__image_config img_cfg;
+static int img_have_cfg = 0;
+static wuffs_base__pixel_buffer img_pb;
+static uint8_t* img_pix = NULL;
+static size_t img_pix_len = 0;
+static uint8_t* img_work = NULL;
+static size_t img_work_len = 0;
+
+static void do_img_new(void) {
+  uint32_t kind = rd32(), fill = rd32(), seed = rd32(), flags = rd32();
+  if (kind >= NUM_IMGS) die("unknown image decoder kind");
+  free(img_obj); img_obj = NULL; img = NULL;
+  free(img_pix); img_pix = NULL; img_pix_len = 0;
+  free(img_work); img_work = NULL; img_work_len = 0;
+  img_have_cfg = 0;
+  memset(&img_cfg, 0, sizeof img_cfg);
+  memset(&img_pb, 0, sizeof img_pb);
+  size_t size = imgs[kind].size();
+  img_obj = (uint8_t*)malloc(size);
+  if (!img_obj) die("malloc");
+  fill_mem(img_obj, size, fill, seed);
+  wuffs_base__status st = imgs[kind].init(img_obj, size, WUFFS_VERSION, flags);
+  if (!st.repr) img = imgs[kind].up(img_obj);
+  wr8('I' | 0x20);
+  wrstr(st.repr ? st.repr : "");
+  wr32((uint32_t)size);
+}
+
+static void do_img_call(void) {
+  uint8_t method = rd8();
+  uint32_t src_len = rd32();
+  uint8_t* src = (uint8_t*)malloc(src_len ? src_len : 1);
+  uint8_t* shadow = (uint8_t*)malloc(src_len ? src_len : 1);
+  if (!src || !shadow) die("out of memory (src)");
+  rd(src, src_len);
+  memcpy(shadow, src, src_len);
+  uint32_t src_ri = rd32();
+  uint8_t closed = rd8();
+  uint64_t pos = rd64();
+  uint8_t pixfill = rd8();
+  uint64_t r_index = 0, r_iopos = 0;
+  if (method == 3) { r_index = rd64(); r_iopos = rd64(); }
+  if (!img) die("image call before new");
+  if (src_ri > src_len) die("bad src_ri");
+  wuffs_base__io_buffer s;
+  s.data.ptr = src; s.data.len = src_len;
+  s.meta.wi = src_len; s.meta.ri = src_ri; s.meta.pos = pos; s.meta.closed = closed != 0;
+
+  wuffs_base__frame_config fc;
+  memset(&fc, 0, sizeof fc);
+  uint8_t too_big = 0;
+  wuffs_base__status st = wuffs_base__make_status(NULL);
+  uint32_t mallocs1 = 0, frees1 = 0;
+  if (method == 2) {
+    if (!img_have_cfg) die("decode_frame before a successful decode_image_config");
+    if (!img_pix) {
+      uint64_t w = wuffs_base__pixel_config__width(&img_cfg.pixcfg), h = wuffs_base__pixel_config__height(&img_cfg.pixcfg);
+      if (w * h > (1u << 24)) {
+        too_big = 1;
+      } else {
+        wuffs_base__pixel_config__set(&img_cfg.pixcfg, WUFFS_BASE__PIXEL_FORMAT__BGRA_NONPREMUL, WUFFS_BASE__PIXEL_SUBSAMPLING__NONE, (uint32_t)w, (uint32_t)h);
+        img_pix_len = (size_t)(w * h * 4);
+        img_pix = (uint8_t*)malloc(img_pix_len ? img_pix_len : 1);
+        if (!img_pix) die("malloc (pixels)");
+        fill_mem(img_pix, img_pix_len, pixfill, 77);
+        wuffs_base__status ps = wuffs_base__pixel_buffer__set_from_slice(&img_pb, &img_cfg.pixcfg, wuffs_base__make_slice_u8(img_pix, img_pix_len));
+        if (ps.repr) die("pixel_buffer__set_from_slice failed");
+      }
+    }
+    wuffs_base__range_ii_u64 wl = wuffs_base__image_decoder__workbuf_len(img);
+    if (wl.max_incl > (1ull << 28)) {
+      too_big = 1;
+    } else if (wl.max_incl > img_work_len) {
+      free(img_work);
+      img_work_len = (size_t)wl.max_incl;
+      img_work = (uint8_t*)malloc(img_work_len);
+      if (!img_work) die("malloc (work)");
+      memset(img_work, 0xA7, img_work_len);
+    }
+  }
+  if (!too_big) {
+    uint32_t mallocs0 = n_mallocs, frees0 = n_frees;
+    switch (method) {
+      case 0: st = wuffs_base__image_decoder__decode_image_config(img, &img_cfg, &s); break;
+      case 1: st = wuffs_base__image_decoder__decode_frame_config(img, &fc, &s); break;
+      case 2: st = wuffs_base__image_decoder__decode_frame(img, &img_pb, &s, WUFFS_BASE__PIXEL_BLEND__SRC,
+                      wuffs_base__make_slice_u8(img_work, img_work_len), NULL); break;
+      case 3: st = wuffs_base__image_decoder__restart_frame(img, r_index, r_iopos); break;
+      default: die("unknown image method");
+    }
+    mallocs1 = n_mallocs - mallocs0; frees1 = n_frees - frees0;
+  }
+  if (method == 0 && !st.repr) img_have_cfg = 1;
+  uint8_t src_ok = (s.data.ptr == src) && (s.data.len == src_len) && (s.meta.wi == src_len) &&
+                   (s.meta.pos == pos) && ((s.meta.closed != 0) == (closed != 0)) &&
+                   (memcmp(shadow, src, src_len) == 0);
+  wr8('J' | 0x20);
+  wrstr(st.repr ? st.repr : "");
+  wr32((uint32_t)s.meta.ri);
+  wr8(src_ok);
+#if defined(CSIM_ALLOC_HOOKS)
+  wr32(mallocs1); wr32(frees1);
+#else
+  (void)mallocs1; (void)frees1;
+  wr32(0xFFFFFFFFu); wr32(0xFFFFFFFFu);
+#endif
+  if (method == 0) {
+    wr32(wuffs_base__pixel_config__width(&img_cfg.pixcfg));
+    wr32(wuffs_base__pixel_config__height(&img_cfg.pixcfg));
+    wr32(wuffs_base__pixel_config__pixel_format(&img_cfg.pixcfg).repr);
+    wr64(wuffs_base__image_config__first_frame_io_position(&img_cfg));
+    wuffs_base__range_ii_u64 wl = wuffs_base__image_decoder__workbuf_len(img);
+    wr64(wl.min_incl); wr64(wl.max_incl);
+  } else if (method == 1) {
+    wuffs_base__rect_ie_u32 r = wuffs_base__frame_config__bounds(&fc);
+    wr32(r.min_incl_x); wr32(r.min_incl_y); wr32(r.max_excl_x); wr32(r.max_excl_y);
+    wr64((uint64_t)wuffs_base__frame_config__duration(&fc));
+    wr64(wuffs_base__frame_config__index(&fc));
+    wr64(wuffs_base__frame_config__io_position(&fc));
+    wr8((uint8_t)wuffs_base__frame_config__disposal(&fc));
+  } else if (method == 2) {
+    wr8(too_big);
+    wuffs_base__rect_ie_u32 r = too_big ? wuffs_base__utility__empty_rect_ie_u32() : wuffs_base__image_decoder__frame_dirty_rect(img);
+    wr32(r.min_incl_x); wr32(r.min_incl_y); wr32(r.max_excl_x); wr32(r.max_excl_y);
+    uint64_t hsh = 0xcbf29ce484222325ull;
+    for (size_t i = 0; i < img_pix_len; i++) { hsh ^= img_pix[i]; hsh *= 0x100000001b3ull; }
+    wr64(hsh);
+    if (img_pix_len <= 65536 && !too_big) { wr32((uint32_t)img_pix_len); wr(img_pix, img_pix_len); } else { wr32(0); }
+  }
+  wr64(wuffs_base__image_decoder__num_decoded_frame_configs(img));
+  wr64(wuffs_base__image_decoder__num_decoded_frames(img));
+  free(src);
+  free(shadow);
+}
+
 // ------------------------------------------------------------------ hashers
 //
 // 'H': algo:u8 fill:u8 seed:u32 flags:u32 npieces:u32, then per piece
@@ -531,6 +714,8 @@ int main(void) {
       case 'D': do_drain(); break;
       case 'K': do_compact(); break;
       case 'H': do_hash(); break;
+      case 'I': do_img_new(); break;
+      case 'J': do_img_call(); break;
       case 'P':  // ping: identifies the build
         wr8('P' | 0x20);
         wr32((uint32_t)NUM_XFORMS);
